@@ -10,6 +10,7 @@ open RV RV.Driver RV.Integrate
   keys    pre/wait, each a string over s (space), 1 (arrow-down), 5 (page-down): key presses delivered at boundary k
           before reb_check_exit is entered / while it waits (integrateP)
 
+  tmaxinf 0 | 1 (tmax == +inf) | 2 (the source refuses NaN targets: integrateN true) | 3 (both)
   kind    once | halves | janus | adaptive | ias15free (IAS15 controller model without forces, min_dt = dtdone of oracle entry 0)
   mask    bit0 collision, bit1 user, bit2 escape, bit3 encounter, bit4 sigint, bit5 errMsg, bit6 stepError
   answer  outcome t dt dld steps status syncs nbeats (dt0 t1 dt1 dld1 st)*nbeats      (oldest beat first)
@@ -85,7 +86,7 @@ def run (toks : List String) : String :=
             let ctl : Nat → List Ctl × List Ctl := fun k =>
               ((sched.filter (fun e => e.1 == k)).flatMap (fun e => e.2.1),
                (sched.filter (fun e => e.1 == k)).flatMap (fun e => e.2.2))
-            let res := if ctlToks.isEmpty then integrate stepFn env fuel s (fl tmax) (tmaxinf == "1")
+            let res := if ctlToks.isEmpty then integrateN (tmaxinf == "2" || tmaxinf == "3") stepFn env fuel s (fl tmax) (tmaxinf == "1" || tmaxinf == "3")
                        else integrateP stepFn env ctl fuel s (fl tmax) (tmaxinf == "1")
             match res with
             | .done s => outStr "done" s
